@@ -82,12 +82,12 @@ let () =
         | "vswrite" ->
           let w = parse_wl (t 7) (ivsize_of_rows (t 7)) in
           if t 8 = "-" then begin
-            if i 3 <= 0 then print_endline "-1" else begin
-              let (lens, vtb) = m_vswrite_lens w (z (i 1)) (z (i 2)) (z (i 3)) (z (i 4)) in
-              let hs = iz w.wl_ivsize in
-              let nv = max (i 6) (i 5 / hs + i 3) in
-              Printf.printf "%d %d %d%s\n" (i 3) (iz vtb) nv (String.concat "" (List.map (fun l -> " w" ^ soi (iz l)) lens))
-            end
+            (match m_vswrite_lens_checked w (z (i 1)) (z (i 2)) (z (i 3)) (z (i 4)) with
+             | None -> print_endline "-1"
+             | Some (lens, vtb) ->
+               let hs = iz w.wl_ivsize in
+               let nv = max (i 6) (i 5 / hs + i 3) in
+               Printf.printf "%d %d %d%s\n" (i 3) (iz vtb) nv (String.concat "" (List.map (fun l -> " w" ^ soi (iz l)) lens)))
           end else
             (match m_vswrite w (z (i 1)) (z (i 2)) (z (i 3)) (z (i 4)) (z (i 5)) (z (i 6)) (unhex (t 8)) with
              | None -> print_endline "-1"
@@ -97,8 +97,10 @@ let () =
           let w = parse_wl (t 5) (ivsize_of_rows (t 5)) in
           let rl = if body (t 6) = "-" then [] else List.map (fun x -> z (int_of_string x)) (String.split_on_char ',' (body (t 6))) in
           if t 7 = "-" then begin
-            let (lens, vtb) = m_vsread_lens w (z (i 1)) (z (i 2)) (z (i 3)) (z (i 4)) in
-            Printf.printf "%d %d%s\n" (i 3) (iz vtb) (String.concat "" (List.map (fun l -> " r" ^ soi (iz l)) lens))
+            (match m_vsread_lens_checked w (z (i 1)) (z (i 2)) (z (i 3)) (z (i 4)) with
+             | None -> print_endline "-1"
+             | Some (lens, vtb) ->
+               Printf.printf "%d %d%s\n" (i 3) (iz vtb) (String.concat "" (List.map (fun l -> " r" ^ soi (iz l)) lens)))
           end else
             (match m_vsread w rl (z (i 1)) (z (i 2)) (z (i 3)) (z (i 4)) (unhex (t 7)) with
              | None -> print_endline "-1"
